@@ -483,44 +483,67 @@ def rule_order(chk, cls, base):
 
 
 def rule_wrap(chk, cls):
+    """_box_wrap_periodic: for every particle and every periodic axis the coordinate ends up as `c + T if c < min`, then `- T if that > max`, and untouched on a
+    non-periodic axis.  Decided by value numbering: the body of the particle loop is evaluated symbolically (helper functions of the module inlined, branches
+    if-converted into indicators) and compared with the same evaluation of the reference statements, so the rule does not depend on how the wrap is spelled."""
+    from verif_static import symb as S
     fn = M.find_func(cls, '_box_wrap_periodic')
+    t = M.cy(NB)
+    helpers = dict((f.name, f) for f in t.body if isinstance(f, ast.FunctionDef))
     env = {}
     for a in ast.walk(fn):
-        if isinstance(a, ast.Assign) and isinstance(a.targets[0], ast.Name) and isinstance(a.value, ast.Attribute) \
-                and a.value.attr in AXES:
-            env[a.targets[0].id] = a.value.attr
+        if isinstance(a, ast.Assign) and isinstance(a.targets[0], ast.Name) and isinstance(a.value, ast.Attribute) and a.value.attr in AXES:
+            env[a.value.attr] = a.targets[0].id
+    ploops = [l for l in ast.walk(fn) if isinstance(l, ast.For) and isinstance(l.iter, ast.Call) and M.call_name(l.iter) == 'range' and isinstance(l.target, ast.Name)]
+    if len(ploops) != 1 or set(env) != set(AXES):
+        raise AnalysisError('_box_wrap_periodic: particle loop / coordinate arrays not found')
+    pl = ploops[0]
+    iv = pl.target.id
+    noargs = ast.arguments(posonlyargs=[], args=[], kwonlyargs=[], kw_defaults=[], defaults=[])
+
+    def run(stmts):
+        ctx = S.Ctx(seconds=20)
+        ev = S.Evaluator(ctx, ast.FunctionDef(name='f', args=noargs, body=stmts, decorator_list=[]), helpers=helpers)
+        ev.run()
+        return ctx, ev
     n = 0
-    for fl in [i for i in ast.walk(fn) if isinstance(i, ast.If) and compact(i.test).startswith('periodic_in_')]:
-        ax = compact(fl.test)[-1]
-        sides = {}
-        for i in fl.body:
-            if not (isinstance(i, ast.If) and isinstance(i.test, ast.Compare)):
-                continue
-            l, op, r = i.test.left, i.test.ops[0], i.test.comparators[0]
-            lhs = compact(l)
-            arr = lhs.split('.data')[0]
-            b = i.body[0] if i.body and isinstance(i.body[0], ast.Assign) else None
-            if b is None:
-                continue
-            tgt = compact(b.targets[0])
-            val = b.value
-            side = 'low' if isinstance(op, ast.Lt) else 'high' if isinstance(op, ast.Gt) else None
-            want_bound = ax + ('min' if side == 'low' else 'max')
-            want_op = ast.Add if side == 'low' else ast.Sub
-            ok = side is not None and env.get(arr) == ax and compact(r) == want_bound and tgt == lhs and \
-                isinstance(val, ast.BinOp) and isinstance(val.op, want_op) and compact(val.left) == lhs and \
-                compact(val.right) == ax + 'translate'
+    try:
+        ctx, ev = run(list(pl.body))
+        for ax in AXES:
+            arr = env[ax]
+            c = '%s.data[%s]' % (arr, iv)
+            ref = ast.parse('if periodic_in_%(ax)s:\n    if %(c)s < %(ax)smin: %(c)s = %(c)s + %(ax)stranslate\n    if %(c)s > %(ax)smax: %(c)s = %(c)s - %(ax)stranslate\n'
+                            % dict(ax=ax, c=c)).body
+            # evaluated in the same context, so that equal sub-terms are the same atoms
+            ev2 = S.Evaluator(ctx, ast.FunctionDef(name='g', args=noargs, body=ref, decorator_list=[]), helpers=helpers)
+            ev2.run()
+            got, want = ev.env.get(c), ev2.env.get(c)
             n += 1
-            sides[side] = ok
-            chk.decide(ok, 'periodic-wrap', '%s-%s' % (ax, side), node=i, file=NB, func='_box_wrap_periodic',
-                       detail_bad='wrap of axis %s is `if %s: %s` (expected own coordinate < %smin -> += %stranslate, > %smax -> -= %stranslate)' % (
-                           ax, U(i.test), U(b), ax, ax, ax, ax), detail_ok=U(b))
-        for side in ('low', 'high'):
-            if side not in sides:
-                n += 1
-                chk.violated('periodic-wrap', '%s-%s' % (ax, side), node=fl, file=NB, func='_box_wrap_periodic',
-                             detail='particles leaving through the %s %s face are not wrapped' % (ax, side))
-    chk.floor('wrap obligations', n, 6)
+            if got is None:
+                chk.violated('periodic-wrap', '%s-axis' % ax, node=pl, file=NB, func='_box_wrap_periodic', detail='the %s coordinate is never wrapped' % ax)
+                continue
+            ok = ctx.prove_zero(got - want)[0]
+            w = None if ok else ctx.witness(got - want, want + S.Poly.const(1))
+            chk.decide(ok, 'periodic-wrap', '%s-axis' % ax, node=pl, file=NB, func='_box_wrap_periodic',
+                       detail_bad='after the loop body the %s coordinate is not `c + %stranslate if c < %smin`, then `- %stranslate if that > %smax` (only when periodic_in_%s)%s'
+                                  % (ax, ax, ax, ax, ax, ax, '; e.g. at %s' % ', '.join('%s=%.3g' % kv for kv in sorted(w[0].items())) if w else ''),
+                       detail_ok='value-numbered result equals the reference wrap')
+        # nothing else is written by the loop body
+        extra = sorted(k for k in ev.env if '.data[' in k and k not in ['%s.data[%s]' % (env[ax], iv) for ax in AXES])
+        chk.decide(not extra, 'periodic-wrap', 'only-coordinates-move', node=pl, file=NB, func='_box_wrap_periodic', detail_bad='the wrap also writes %s' % extra, detail_ok='only x, y, z')
+    except (S.Unsupported, S.Budget) as e:
+        chk.undecided('periodic-wrap', 'evaluation', node=pl, file=NB, func='_box_wrap_periodic', detail=str(e))
+    chk.floor('wrap obligations', n, 3)
+    # every particle of every array: the loop bound is the live length of the coordinate array (a count remembered by the wrapper is stale after additions)
+    bound = pl.iter.args[-1] if pl.iter.args else None
+    defs = dict((a.targets[0].id, a.value) for a in ast.walk(fn) if isinstance(a, ast.Assign) and isinstance(a.targets[0], ast.Name))
+    while isinstance(bound, ast.Name) and bound.id in defs:
+        bound = defs[bound.id]
+    bt = compact(bound) if bound is not None else ''
+    live = bt in ['%s.length' % env[ax] for ax in AXES] or bt.endswith('.get_number_of_particles()')
+    chk.decide(len(pl.iter.args) == 1 and live, 'periodic-wrap', 'all-particles', node=pl, file=NB, func='_box_wrap_periodic',
+               detail_bad='the particle loop runs over `%s`, not over the current length of the coordinate arrays: particles added after the wrappers were made are never wrapped' % bt,
+               detail_ok='range(%s)' % bt)
     loops = [l for l in fn.body if isinstance(l, ast.For)]
     chk.decide(bool(loops) and compact(loops[0].iter) in ('self.pa_wrappers', 'pa_wrappers'), 'periodic-wrap', 'all-arrays',
                node=fn, file=NB, func='_box_wrap_periodic', detail_bad='wrap does not visit every particle array', detail_ok='all arrays')
